@@ -332,14 +332,22 @@ TPersistEnd ==
           ELSE /\ fseg' = Put(fseg, Ev.id, [st |-> IF Has(Ev, "parse") THEN "torn" ELSE "ok", size |-> Ev.size,
                                            docs |-> IF Has(Ev, "parse") THEN <<>> ELSE Ev.docs])
                /\ fsnp' = fsnp /\ cnt' = cnt
-     ELSE \* a failed Persist removes the item (FileSystemDirectory.Persist cleanup)
-          /\ IF Ev.kind = ".snp"
+     ELSE \* a failed Persist removes the item (FileSystemDirectory.Persist cleanup); a failure injected before the
+          \* directory was called changes nothing; `left` is the size of what the wrapper found under the item's name
+          \* after the directory reported the failure (-1: nothing) -- anything there is a torn item
+          /\ IF Has(Ev, "stage") /\ Ev.stage = "before" THEN fsnp' = fsnp /\ fseg' = fseg
+             ELSE IF Has(Ev, "left") /\ Ev.left >= 0
+             THEN IF Ev.kind = ".snp"
+                  THEN fsnp' = Put(fsnp, Ev.id, [st |-> "torn", size |-> Ev.left, ents |-> <<>>]) /\ fseg' = fseg
+                  ELSE fseg' = Put(fseg, Ev.id, [st |-> "torn", size |-> Ev.left, docs |-> <<>>]) /\ fsnp' = fsnp
+             ELSE IF Ev.kind = ".snp"
              THEN fsnp' = Restrict(fsnp, DOMAIN fsnp \ {Ev.id}) /\ fseg' = fseg
              ELSE fseg' = Restrict(fseg, DOMAIN fseg \ {Ev.id}) /\ fsnp' = fsnp
           /\ cnt' = cnt
   /\ tv' = [tv EXCEPT !.ploaded = IF Ev.err = "" /\ Ev.kind = ".seg" /\ Ev.proc = "pers" THEN @ \cup {Ev.id} ELSE @]
   /\ UNCHANGED <<root, pol, inst, rd, life>> /\ UNCHANGED Ghosts /\ UNCHANGED Unused
-  /\ Judge(IF Ev.err = "" /\ Has(Ev, "parse") THEN {"C13_persisted_item_unreadable"} ELSE {})
+  /\ Judge((IF Ev.err = "" /\ Has(Ev, "parse") THEN {"C13_persisted_item_unreadable"} ELSE {})
+           \cup (IF Ev.err # "" /\ Has(Ev, "left") /\ Ev.left >= 0 THEN {"C14_failed_persist_left_a_file", "C13_failure_left_a_file"} ELSE {}))
 
 TLoadEnd ==
   /\ Step("LoadEnd")
